@@ -66,18 +66,20 @@ type Explorer struct {
 
 	work []workItem
 
-	cursor       int
-	crossQueries []crossQ
-	curWhere     string
-	knownModels  []knownHit
-	nowSec       int64
-	nowNs        int64
-	nowSym       func() value
-	nowNsec      func() value
-	randFixed    bool
-	randStarted  bool
-	randNext     int
-	onLock       func(mu *value, lock bool, fr *frame)
+	cursor                               int
+	crossQueries                         []crossQ
+	curWhere                             string
+	knownModels                          []knownHit
+	nowSec                               int64
+	nowNs                                int64
+	nowSym                               func() value
+	nowNsec                              func() value
+	randFixed                            bool
+	shardI, shardN, shardDepth           int
+	pathObl, pathDis, pathTriv, pathViol int
+	randStarted                          bool
+	randNext                             int
+	onLock                               func(mu *value, lock bool, fr *frame)
 
 	// limits
 	unwind     int
@@ -234,6 +236,7 @@ func (ex *Explorer) decide(c *Term, why string) bool {
 		} else {
 			ex.pc = append(ex.pc, mkNot(c))
 		}
+		ex.shardCheck()
 		return d
 	}
 	// new decision
@@ -285,6 +288,7 @@ func (ex *Explorer) decide(c *Term, why string) bool {
 	}
 	ex.trace = append(ex.trace, take)
 	ex.cursor++
+	defer ex.shardCheck()
 	if take {
 		ex.pc = append(ex.pc, c)
 		if tRes == Sat {
@@ -344,6 +348,22 @@ func (ex *Explorer) concretize(t *Term, lo, hi int64, why string) int64 {
 		}
 	}
 	return lo
+}
+
+// shardCheck ends the path when its first shardDepth decisions belong to
+// another shard (several processes split one harness between them).
+func (ex *Explorer) shardCheck() {
+	if ex.shardN <= 1 || ex.cursor != ex.shardDepth {
+		return
+	}
+	h := uint32(2166136261)
+	for _, d := range ex.trace[:ex.shardDepth] {
+		h ^= uint32(b2u(d)) + 1
+		h *= 16777619
+	}
+	if int(h%uint32(ex.shardN)) != ex.shardI {
+		ex.abort("other-shard", "")
+	}
 }
 
 func (ex *Explorer) freshName(base string) string {
@@ -615,6 +635,7 @@ func (ex *Explorer) resetPath(w workItem) {
 	ex.regions = map[string]*Term{}
 	ex.unconf = false
 	ex.envDepth = 0
+	ex.pathObl, ex.pathDis, ex.pathTriv, ex.pathViol = ex.Obligations, ex.Discharged, ex.Trivial, len(ex.Violations)
 	ex.randStarted = false
 	ex.randNext = 0
 	ex.catchDepth = 0
@@ -643,6 +664,12 @@ func (ex *Explorer) Run(name string, body func()) {
 		ex.resetPath(w)
 		end := ex.runOne(body)
 		trailRollback(mark)
+		if ex.shardN > 1 && (end.kind == "other-shard" || (ex.shardI != 0 && len(ex.trace) < ex.shardDepth)) {
+			// explored (or to be explored) by another shard: do not count twice
+			ex.Obligations, ex.Discharged, ex.Trivial = ex.pathObl, ex.pathDis, ex.pathTriv
+			ex.Violations = ex.Violations[:ex.pathViol]
+			continue
+		}
 		ex.Paths++
 		ex.PathKinds[end.kind]++
 		switch end.kind {
